@@ -22,7 +22,7 @@ import (
 )
 
 func gen(r *rand.Rand, tier string, i int) msgh.Input {
-	p := msgh.Profile{MinOps: 8, MaxOps: 36, Collide: 0.45, MutWeight: 70, AppendHeavy: true, BatchRate: 0.06}
+	p := msgh.Profile{MinOps: 8, MaxOps: 36, Collide: 0.45, MutWeight: 70, AppendHeavy: true, BatchRate: 0.06, TrimRetry: 0.7, TrimScenario: 0.2}
 	if tier == "thorough" {
 		p.MaxOps = 80
 	}
